@@ -13,6 +13,11 @@ mod exec_sparse;
 mod exec_wm;
 mod gen;
 mod gen_more;
+mod gen_bv;
+mod gen_sp;
+mod gen_rl;
+mod gen_wm;
+mod gen_ser;
 mod util;
 
 use std::io::{BufRead, Write};
